@@ -42,6 +42,18 @@ theorem C14_holds (env : Env) (libs : List (String × Bytes)) (ops : List Op) :
         | some c =>
           have hw : w.config = some c := by rw [← hinv, hc]
           simp [postView, step, shouldAutoUpdate, hw, firstFail, World.view]
+      | check chan resp =>
+        cases hc : g.cfg with
+        | none => simp [firstFail]
+        | some c =>
+          have hw : w.config = some c := by rw [← hinv, hc]
+          simp [postView, step, check, hw, firstFail, World.view]
+      | update chan sc =>
+        cases hc : g.cfg with
+        | none => simp [firstFail]
+        | some c =>
+          have hw : w.config = some c := by rw [← hinv, hc]
+          simp [postView, step, update, updateActs, hw, firstFail, World.view]
       | _ => simp [firstFail]
     · -- invariant
       simp only [mon14]
